@@ -159,10 +159,12 @@ structure Context where
 
 namespace Context
 
-/-- `Context::new`'s assertions (plus validity of the parts and a modulus of 1..254 bytes) -/
+/-- `Context::new`'s assertions (plus validity of the parts and a NON-ZERO modulus of 1..254 bytes:
+`Context::new::<B>` stores the modulus of a real field; `read_from` rejects an all-zero one) -/
 def Valid (c : Context) : Prop :=
   c.info.Valid ∧ c.options.Valid ∧ c.info.length < 2 ^ 32 ∧ c.info.length * c.options.blowup < 2 ^ 32 ∧
-  0 < c.numConstraints ∧ c.numConstraints < 2 ^ 32 ∧ 0 < c.modulus.length ∧ c.modulus.length < 255
+  0 < c.numConstraints ∧ c.numConstraints < 2 ^ 32 ∧ 0 < c.modulus.length ∧ c.modulus.length < 255 ∧
+  c.modulus.any (· != 0) = true
 
 def encode (c : Context) : Bytes :=
   c.info.encode ++ lenBytesEnc 1 c.modulus ++ c.options.encode ++ writeUsize c.numConstraints
@@ -181,6 +183,8 @@ def decode : Dec Context := fun bs =>
       | .err e => .err e
       | .abort => .abort
       | .ok m r3 =>
+        -- `if field_modulus_bytes.iter().all(|&byte| byte == 0) { return Err(InvalidValue(..)) }`
+        if m.all (· == 0) then .err .invalid else
         match ProofOptions.decode r3 with
         | .err e => .err e
         | .abort => .abort
@@ -271,6 +275,67 @@ def friProofDec : Dec FriProof := fun bs =>
         match readU8 r3 with
         | .err e => .err e
         | .abort => .abort
-        | .ok np r4 => .ok ⟨ls, rem, np⟩ r4
+        | .ok np r4 =>
+          -- `if num_partitions as u32 >= usize::BITS { return Err(InvalidValue(..)) }` (fix 2a4d57e)
+          if np ≥ 64 then .err .invalid else .ok ⟨ls, rem, np⟩ r4
+
+end Wf
+
+namespace Wf
+
+/-! ## the whole proof (`air/src/proof/mod.rs`) -/
+
+structure ProofM where
+  context : Context
+  numUniqueQueries : Nat
+  commitments : Bytes
+  traceQueries : List (Bytes × Bytes)
+  constraintQueries : Bytes × Bytes
+  oodFrame : Bytes × Bytes
+  fri : FriProof
+  nonce : Nat
+  deriving Repr, DecidableEq
+
+/-- `trace_info().num_segments()` -/
+def numSegments (c : Context) : Nat := if c.info.aux > 0 then 2 else 1
+
+def proofEnc (p : ProofM) : Bytes :=
+  p.context.encode ++ leBytes 1 p.numUniqueQueries ++ commitmentsEnc p.commitments ++
+    (p.traceQueries.map queriesCodec.enc).flatten ++ queriesCodec.enc p.constraintQueries ++
+    oodFrameEnc p.oodFrame ++ friProofEnc p.fri ++ leBytes 8 p.nonce
+
+def proofDec : Dec ProofM := fun bs =>
+  match Context.decode bs with
+  | .err e => .err e
+  | .abort => .abort
+  | .ok ctx r1 =>
+    match readU8 r1 with
+    | .err e => .err e
+    | .abort => .abort
+    | .ok nq r2 =>
+      match commitmentsDec r2 with
+      | .err e => .err e
+      | .abort => .abort
+      | .ok cm r3 =>
+        match readManyLoop queriesCodec.dec (numSegments ctx) [] r3 with
+        | .err e => .err e
+        | .abort => .abort
+        | .ok tq r4 =>
+          match queriesCodec.dec r4 with
+          | .err e => .err e
+          | .abort => .abort
+          | .ok cq r5 =>
+            match oodFrameDec r5 with
+            | .err e => .err e
+            | .abort => .abort
+            | .ok ood r6 =>
+              match friProofDec r6 with
+              | .err e => .err e
+              | .abort => .abort
+              | .ok fri r7 =>
+                match readU64 r7 with
+                | .err e => .err e
+                | .abort => .abort
+                | .ok nonce r8 => .ok ⟨ctx, nq, cm, tq, cq, ood, fri, nonce⟩ r8
 
 end Wf
